@@ -264,7 +264,7 @@ func features(scheme, s, canon string) []string {
 		}
 		add(true, fmt.Sprintf("depth=%d", min(max, 5)))
 		add(strings.Contains(t, "[]") && t != "[]", "kept-empty-sublist")
-		add(strings.Contains(t, `"0"`), "string-zero-from-empty-token")
+		add(strings.Contains(t, `"30"`), "string-zero-from-empty-token")
 		add(strings.Contains(t, ",0,") || strings.Contains(t, "[0,"), "inner-zero")
 	case "rhctag":
 		add(strings.HasPrefix(s, "v"), "v-prefix")
@@ -309,6 +309,10 @@ func Run(cfg hx.Config) error {
 				r.Count(sc.name + ":triple:edit-chain")
 			default:
 				r.Count(sc.name + ":triple:family")
+			}
+			if rnd.Chance(1, 15) {
+				c = f.nonASCIIEdit(c)
+				r.Count(sc.name + ":triple:non-ascii")
 			}
 			triple(r, sc, [3]string{a, b, c})
 		}
@@ -459,7 +463,13 @@ func pepRanges(r *hx.Run, rnd *hx.Rand, n int) {
 			}
 			return s
 		}
-		sp := func() string { return f.pick("", "", "", " ", "  ", "\t") }
+		sp := func() string {
+			if rnd.Chance(1, 12) {
+				// Unicode white space is stripped as well; U+200B, U+FFFD and ill-formed bytes are not
+				return f.pick("\u00a0", "\u2003", "\u0085", "\u3000", "\u200b", "\xa0", "\xc2", "\ufffd", "\xe2\x80")
+			}
+			return f.pick("", "", "", " ", "  ", "\t")
+		}
 		type part struct{ op, ver string }
 		var parts []part
 		halfOpen := false
